@@ -46,6 +46,14 @@ T = {
  "C19-m2": ("C19", "two-step history on one tree: strip_exponent call with check_zero=False, then check_zero=True on data with a zero slice (check_zero dropped from the contractor cache key)", ["C19"]),
  "C20-m1": ("C20", "non-output index on >=3 tensors dropped when two carriers merge", ["C20", "C18"]),
  "C20-m2": ("C20", "cap exactly equal to the largest bond that arises: QR cost charged although nothing is truncated", ["C20"]),
+ "C02w2-m1": ("C02", "restore_ind no longer resets index orderings: sort_contraction_indices -> remove_ind_ -> contract while sliced -> restore_ind_ -> contract (a 4-op history)", ["C02"]),
+ "C02w2-m2": ("C02", "root special case dropped in contract_nodes_pair: accepted annealing move at the root with >=2 output indices", ["C02"]),
+ "C04w2-m1": ("C04", "sliced_inds shared by reference between a tree and its copies: slice, copy (or non-inplace unslice), unslice one, inspect the other", ["C04", "C02"]),
+ "C04w2-m2": ("C04", "remove_ind no longer pre-populates `involved` on annealed nodes: anneal with an accepted move, then a direct remove_ind", ["C04"]),
+ "C14w2-m1": ("C14", "in-memory cache with directory_split=False: entry stored under (h,) but looked up under h -> always missing", ["C14"]),
+ "C14w2-m2": ("C14", "cache hit of a sliced entry comes back unsliced (remove_ind on a discarded copy): needs slicing_opts + a hit", ["C14"]),
+ "C16w2-m1": ("C16", "hash_method='b' numbers the output as term N: an open network and the closed network made by appending the output as a term share a fingerprint", ["C14", "C16"]),
+ "C16w2-m2": ("C16", "overwrite='improved' resumes the thread's last sub-optimizer: sequence X, Y, X with Y cheaper returns Y's tree for X", ["C16", "C14"]),
 }
 for name, (prop, needs, caught) in sorted(T.items()):
     d = os.path.join(S, name)
